@@ -222,6 +222,42 @@ Section Eq.
   Qed.
 End Eq.
 
+(* ---- TrajectoryPrediction._create_occupancy_set, translated: the list the cached property occupancy_set holds when
+   it is what the method returned.  [osfs] is occupancy_shape_from_state; the shape is the prediction's own. *)
+Section Create.
+  Variables S R : Type.
+  Variable tstep : S -> Z.
+  Variable osfs : R -> S -> R.
+
+  Theorem src_create_occs_eq (q : traj_pred_src S R) :
+    map occ_of_step (src_create_occs S R tstep osfs q) = occupancy_set S R tstep (osfs (ts_shape q)) (ts_traj q).
+  Proof. unfold src_create_occs, occupancy_set. rewrite map_map. reflexivity. Qed.
+
+  (* the cache hypothesis of the lemmas above, discharged: a prediction whose cached occupancy_set is the value the
+     translated _create_occupancy_set returns on its trajectory and shape *)
+  Definition cache_from_source (q : traj_pred_src S R) (p : traj_pred S R) : Prop :=
+    tp_traj p = ts_traj q /\ tp_occs p = src_create_occs S R tstep osfs q.
+
+  Theorem occs_ok_from_source q p : cache_from_source q p -> occs_ok S R tstep (osfs (ts_shape q)) p.
+  Proof. intros [Ht Ho]. unfold occs_ok. rewrite Ho, Ht. apply src_create_occs_eq. Qed.
+
+  Theorem src_pred_occ_traj_from_source q p t : cache_from_source q p ->
+    src_pred_occ_traj S R p t = pred_occupancy_at S R tstep (osfs (ts_shape q)) (emb_traj S R p) t.
+  Proof. intro H. apply src_pred_occ_traj_eq, occs_ok_from_source, H. Qed.
+
+  Theorem src_dyn_occ_traj_from_source i ty q (o : dyn_obs S R (traj_pred S R)) t :
+    dyn_shape_ok S R (osfs (ts_shape q)) o -> cache_from_source q (do_pred o) ->
+    src_dyn_occ_traj S R tstep o t
+    = occupancy_at_time S R tstep (osfs (ts_shape q)) (emb_dyn S R i ty (fun p => Some (emb_traj S R p)) o) t.
+  Proof. intros Hs Hc. apply src_dyn_occ_traj_eq; [exact Hs | apply occs_ok_from_source, Hc]. Qed.
+End Create.
+
+Example cache_from_source_example :
+  cache_from_source Z Z (fun s => s) (fun sh s => sh * s)
+    {| ts_traj := {| t_init := 3; t_states := [3; 4] |}; ts_shape := 10; ts_wheelbase := tt |}
+    {| tp_traj := {| t_init := 3; t_states := [3; 4] |}; tp_occs := [(3, 30); (4, 40)] |}.
+Proof. split; reflexivity. Qed.
+
 (* non-vacuity: a trajectory prediction whose cached set is what _create_occupancy_set computes *)
 Example occs_ok_example :
   occs_ok Z Z (fun s => s) (fun s => 10 * s) {| tp_traj := {| t_init := 3; t_states := [3; 4] |}; tp_occs := [(3, 30); (4, 40)] |}.
